@@ -577,11 +577,11 @@ func (st *State) strLit(s string) Term {
 	}
 	e.litStrs[name] = s
 	lt := MkStr4(arr, IntLit(0), IntLit(int64(len(s))), IntLit(0))
-	if pf := e.specs.Pures["prelude.validUTF8"]; pf != nil && utf8.ValidString(s) {
+	if pf := e.specs.Pures["prelude.vutf8"]; pf != nil && utf8.ValidString(s) {
 		// a literal that is valid UTF-8 satisfies the (otherwise uninterpreted) predicate of the catalogue
-		fn := "pf_prelude_validUTF8"
-		e.declare(fn, fmt.Sprintf("(declare-fun %s (%s) Bool)", fn, SStr))
-		st.assume(app(SBool, fn, lt))
+		fn := "pf_prelude_vutf8"
+		e.declare(fn, fmt.Sprintf("(declare-fun %s (Int) Bool)", fn))
+		st.assume(app(SBool, fn, st.strKey(lt)))
 	}
 	return lt
 }
